@@ -10,13 +10,15 @@ Scope, stated plainly
   new values are what `get_params` returns and nothing else moved; constructing
   with `p'` equals constructing with `p` and then `set_params(**p')`; unknown
   names raise `ValueError`; a float outside a declared range raises
-  `AssertionError`; attribute reads/writes mirror `params`; a model whose
+  `AssertionError` and changes nothing; attribute reads/writes mirror `params`; a model whose
   weights are all owned is not affected by `mutateRow` on a caller array.
-* The faithful model VIOLATES "rejects" in the sense "the rejected value is not
-  taken": `set_params` assigns before it validates (finding F25).  This file
-  therefore has `set_rejected_value_stays` (for every class and every rejected
-  float), the concrete `…_counterexample`s, and `_partial` theorems with the
-  explicit hypothesis that excludes the defect.
+* F25 (`set_params` assigned before it validated) was repaired in /repo 41ad083;
+  the model mirrors the new order and `set_rejection_leaves_state` proves, for
+  every class and every call, that a rejected call (unknown name, or any
+  exception of `validate_params`) leaves the estimator exactly as it was.  What
+  remains false of model and code is documented by
+  `set_nested_attr_error_after_assign_counterexample` (a nested name on a value
+  that is no estimator fails only after the plain names were assigned).
 * NOT modelled, hence NOT proved — covered by `harness/artv/checks/C19.py` on
   the implementation only: anything about Python object graphs
   (`copy.deepcopy`, `pickle`, `sklearn.base.clone`, `fit(...) is est`,
@@ -73,9 +75,9 @@ theorem set_rejects_unknown (checks : List Check) (e : Est) (kvs : List (String 
     cases kvs with
     | nil => simp at hm
     | cons a r => rfl
-  have hu := setLoop_unknown ⟨e, e.params, []⟩ kvs h
+  have hu := setLoop_unknown e.params ⟨e.params, [], []⟩ kvs h
   simp only [setParams, hne]
-  generalize setLoop ⟨e, e.params, []⟩ kvs = L at hu
+  generalize setLoop e.params ⟨e.params, [], []⟩ kvs = L at hu
   obtain ⟨st, err⟩ := L
   simp only at hu
   subst hu
@@ -101,13 +103,16 @@ theorem set_then_get (checks : List Check) (e : Est) (kvs : List (String × Val)
       rw [this] at hok
       cases hok
     have hpk : ∀ kv ∈ kvs, Plain kv.1 ∧ kv.1 ∈ keys e.params := fun kv hm => ⟨hp kv hm, hknown kv hm⟩
-    rw [setParams_plain checks e kvs hne hpk]
-    simp only [getParams]
-    refine ⟨?_, ?_, keys_applyAll _ _⟩
-    · intro kv hm
-      exact applyAll_get_of_mem hn hm (hknown kv hm)
-    · intro k hk
-      exact applyAll_get_other hk
+    rw [setParams_plain checks e kvs hne hpk] at hok ⊢
+    cases hv : validate checks (applyAll e.params kvs) with
+    | some err => simp [hv] at hok
+    | none =>
+      simp only [getParams]
+      refine ⟨?_, ?_, keys_applyAll _ _⟩
+      · intro kv hm
+        exact applyAll_get_of_mem hn hm (hknown kv hm)
+      · intro k hk
+        exact applyAll_get_other hk
 
 /-- For every class of the table: an estimator constructed with `p`, then
 `set_params(**p')` with a full set of arguments, is exactly (class, parameter store,
@@ -121,11 +126,12 @@ theorem set_params_eq_construct : ∀ c ∈ classTable, ∀ (p p' : Store) (e e'
   exact setParams_eq_construct_generic c hnd hpl p p' e e' h h' hn' htot
 
 /-- A float outside a range that `validate_params` declares raises `AssertionError`
-(for every list of checks, in particular every class of the table). -/
+(for every list of checks, in particular every class of the table) — and the estimator
+is exactly what it was. -/
 theorem set_rejects_out_of_range (checks : List Check) (e : Est) (k : String) (lo hi : Option Bound)
     (q : Rat) (hm : Check.range k lo hi ∈ checks) (hv : validate checks e.params = none)
     (hp : Plain k) (hout : inRange lo hi q = false) :
-    (setParams checks e [(k, .flt q)]).err = some .assert := by
+    (setParams checks e [(k, .flt q)]).err = some .assert ∧ (setParams checks e [(k, .flt q)]).est = e := by
   have hk : k ∈ keys e.params := by
     have := evalCheck_none_of_validate hv hm
     simp only [evalCheck] at this
@@ -144,14 +150,15 @@ theorem set_rejects_out_of_range (checks : List Check) (e : Est) (k : String) (l
     simp [evalCheck, get?_assign_same _ hk, Val.numView, hout]
   rcases validate_assign_flt q hk hv with h | h
   · exact absurd h (validate_ne_none_of_mem hm hfail)
-  · exact h
+  · simp [h]
 
 /-- Instantiation on the table: `rho` outside `[0, 1]` is rejected by every class that
 declares the unit range (all but BayesianART), `rho ≤ 0` by BayesianART. -/
 theorem rho_out_of_range_rejected : ∀ c ∈ classTable, ∀ (e : Est) (q : Rat),
     validate c.checks e.params = none →
     (if c.name = "BayesianART" then q ≤ 0 else (q < 0 ∨ 1 < q)) →
-    (setParams c.checks e [("rho", .flt q)]).err = some .assert := by
+    (setParams c.checks e [("rho", .flt q)]).err = some .assert ∧
+    (setParams c.checks e [("rho", .flt q)]).est = e := by
   intro c hc e q hv hq
   have hpl : Plain "rho" := by decide
   obtain ⟨h1, h2⟩ := table_rho_range c hc
@@ -173,79 +180,68 @@ theorem rho_out_of_range_rejected : ∀ c ∈ classTable, ∀ (e : Est) (q : Rat
     · right; exact decide_eq_false (Rat.not_le.mpr hq)
     · left; exact decide_eq_false (Rat.not_le.mpr hq)
 
-/-! ### F25 — `set_params` assigns before it validates
+/-! ### a rejected call changes nothing (F25 repaired in /repo 41ad083)
 
-Full statement that FAILS for the faithful model (and for the code):
-  `(setParams checks e kvs).err ≠ none → (setParams checks e kvs).est = e`
-("a rejected call leaves the estimator as it was"). -/
+`set_params` now collects the names, validates `local_params`, and only then assigns. -/
 
-/-- F25, in general: the very float that `set_params` rejected with `AssertionError`
-is what `get_params` returns afterwards — for every class and every rejected value. -/
-theorem set_rejected_value_stays (checks : List Check) (e : Est) (k : String) (lo hi : Option Bound)
-    (q : Rat) (hm : Check.range k lo hi ∈ checks) (hv : validate checks e.params = none)
-    (hp : Plain k) (hout : inRange lo hi q = false) :
-    (setParams checks e [(k, .flt q)]).err = some .assert ∧
-    get? (getParams (setParams checks e [(k, .flt q)]).est) k = some (.flt q) := by
-  refine ⟨set_rejects_out_of_range checks e k lo hi q hm hv hp hout, ?_⟩
-  have hk : k ∈ keys e.params := by
-    have := evalCheck_none_of_validate hv hm
-    simp only [evalCheck] at this
-    apply get?_isSome_iff.mp
-    cases hg : get? e.params k with
-    | none => simp [hg] at this
-    | some v => rfl
-  have hpk : ∀ kv ∈ [(k, Val.flt q)], Plain kv.1 ∧ kv.1 ∈ keys e.params := by
-    intro kv hmem
-    simp only [List.mem_singleton] at hmem
-    subst hmem
-    exact ⟨hp, hk⟩
-  rw [setParams_plain checks e _ (by simp) hpk]
-  simp only [getParams, applyAll, List.foldl_cons, List.foldl_nil]
-  exact get?_assign_same _ hk
+/-- A call that is REJECTED — `ValueError` for an unknown name anywhere in the call, or any
+exception of `validate_params` (out-of-range value, wrong type, …) — leaves the estimator
+exactly as it was and delegates nothing.  (The only other exception the call can raise is the
+`AttributeError` of routing a nested name `k__sub` to a value that is no estimator; see
+`set_nested_attr_error_after_assign_counterexample`.) -/
+theorem set_rejection_leaves_state (checks : List Check) (e : Est) (kvs : List (String × Val))
+    (x : Err) (hx : (setParams checks e kvs).err = some x) (hna : x ≠ .attr) :
+    (setParams checks e kvs).est = e ∧ (setParams checks e kvs).delegated = [] :=
+  setParams_rejected_unchanged checks e kvs x hx hna
+
+/-- Full strength for calls without nested names: whatever a call with plain names raises,
+the estimator is exactly what it was. -/
+theorem set_raises_leaves_state_plain (checks : List Check) (e : Est) (kvs : List (String × Val))
+    (hp : ∀ kv ∈ kvs, Plain kv.1) (hx : (setParams checks e kvs).err ≠ none) :
+    (setParams checks e kvs).est = e := by
+  by_cases hknown : ∀ kv ∈ kvs, kv.1 ∈ keys e.params
+  · by_cases hne : kvs = []
+    · subst hne; simp [setParams]
+    · have hpk : ∀ kv ∈ kvs, Plain kv.1 ∧ kv.1 ∈ keys e.params := fun kv hm => ⟨hp kv hm, hknown kv hm⟩
+      rw [setParams_plain checks e kvs hne hpk] at hx ⊢
+      cases hv : validate checks (applyAll e.params kvs) with
+      | some err => simp
+      | none => simp [hv] at hx
+  · have hu : ∃ kv ∈ kvs, (partitionKey kv.1).1 ∉ keys e.params := by
+      apply Classical.byContradiction
+      intro hno
+      apply hknown
+      intro kv hm
+      apply Classical.byContradiction
+      intro hnot
+      have hpl : partitionKey kv.1 = (kv.1, none) := hp kv hm
+      exact hno ⟨kv, hm, by rw [hpl]; exact hnot⟩
+    have := set_rejects_unknown checks e kvs hu
+    exact (set_rejection_leaves_state checks e kvs .value this (by decide)).1
 
 /-- a valid FuzzyART(rho=1/2, alpha=0, beta=1) -/
 def fuzzyHalf : Est :=
   ⟨"FuzzyART", [("rho", .flt (mkRat 1 2)), ("alpha", .flt 0), ("beta", .flt 1)], initAttrs⟩
 
-/-- F25, concrete: `FuzzyART(0.5, 0.0, 1.0).set_params(rho=2.0)` raises `AssertionError`
-and the estimator is not what it was: `rho` is now `2.0`. -/
-theorem set_rejected_value_stays_counterexample :
+/-- What does NOT hold of the faithful model (and of the code): "every call that raises leaves
+the estimator unchanged".  `FuzzyART(0.5, 0.0, 1.0).set_params(rho=0.25, alpha__x=1.0)` passes
+validation, assigns `rho`, and then raises `AttributeError` ('float' object has no attribute
+'set_params') while routing `alpha__x` — `rho` stays `0.25`.  The statement of C19 ("rejects
+unknown names or out-of-range values") is not concerned; `set_rejection_leaves_state` and
+`set_raises_leaves_state_plain` are the `_partial`s with the explicit hypotheses. -/
+theorem set_nested_attr_error_after_assign_counterexample :
+    (setParams fuzzyART.checks fuzzyHalf [("rho", .flt (mkRat 1 4)), ("alpha__x", .flt 1)]).err = some .attr ∧
+    (setParams fuzzyART.checks fuzzyHalf [("rho", .flt (mkRat 1 4)), ("alpha__x", .flt 1)]).est ≠ fuzzyHalf := by
+  decide
+
+/-- The two rejections that used to leave traces (F25) no longer do: a rejected value, and a
+valid name that precedes an unknown one. -/
+theorem set_rejected_examples_unchanged :
     (setParams fuzzyART.checks fuzzyHalf [("rho", .flt 2)]).err = some .assert ∧
-    (setParams fuzzyART.checks fuzzyHalf [("rho", .flt 2)]).est ≠ fuzzyHalf ∧
-    get? (getParams (setParams fuzzyART.checks fuzzyHalf [("rho", .flt 2)]).est) "rho" = some (.flt 2) := by
-  decide
-
-/-- F25, second form: `set_params(alpha=0.25, bogus=1.0)` raises `ValueError` for the
-unknown name, but `alpha` — which came first — stays assigned. -/
-theorem set_unknown_after_known_stays_counterexample :
+    (setParams fuzzyART.checks fuzzyHalf [("rho", .flt 2)]).est = fuzzyHalf ∧
     (setParams fuzzyART.checks fuzzyHalf [("alpha", .flt (mkRat 1 4)), ("bogus", .flt 1)]).err = some .value ∧
-    get? (getParams (setParams fuzzyART.checks fuzzyHalf
-      [("alpha", .flt (mkRat 1 4)), ("bogus", .flt 1)]).est) "alpha" = some (.flt (mkRat 1 4)) := by
+    (setParams fuzzyART.checks fuzzyHalf [("alpha", .flt (mkRat 1 4)), ("bogus", .flt 1)]).est = fuzzyHalf := by
   decide
-
-/-- Partial: a rejected call leaves the estimator unchanged under the extra hypothesis
-that the rejection is for an unknown FIRST name (nothing has been assigned yet). -/
-theorem set_rejection_state_unchanged_partial (checks : List Check) (e : Est) (kv : String × Val)
-    (rest : List (String × Val)) (hu : (partitionKey kv.1).1 ∉ keys e.params) :
-    (setParams checks e (kv :: rest)).err = some .value ∧ (setParams checks e (kv :: rest)).est = e := by
-  obtain ⟨key, v⟩ := kv
-  have hn : (get? e.params (partitionKey key).1).isSome = false := by
-    cases hg : get? e.params (partitionKey key).1 with
-    | none => rfl
-    | some x => exact absurd (get?_isSome_iff.mp (by simp [hg])) hu
-  simp [setParams, setLoop, hn]
-
-/-- Partial: under the hypothesis that validation precedes assignment — i.e. for the
-variant `setParamsAtomic`, which differs from the code only in that — the verdict is the
-same, accepted calls have the same effect, and a rejected call leaves the estimator unchanged. -/
-theorem set_rejection_atomic_partial (checks : List Check) (e : Est) (kvs : List (String × Val)) :
-    (setParamsAtomic checks e kvs).err = (setParams checks e kvs).err ∧
-    ((setParams checks e kvs).err = none → setParamsAtomic checks e kvs = setParams checks e kvs) ∧
-    ((setParams checks e kvs).err ≠ none → (setParamsAtomic checks e kvs).est = e) := by
-  simp only [setParamsAtomic]
-  cases h : (setParams checks e kvs).err with
-  | none => simp [h]
-  | some err => simp
 
 /-! ### attributes mirror the parameters -/
 
